@@ -1,5 +1,6 @@
 import VtProofs.VplTyped
 import VtProofs.VplTotal
+import VtProofs.VplDepth
 /-!
 # C18 — every well-formed pipeline text parses to the pipeline it describes
 
@@ -42,6 +43,44 @@ theorem too_deep_rejected (s : Str) (h : maxNesting < bracketDepth s) : parseVpl
 theorem parse_render_prefix (d f : Nat) (c : CPipe d) (h : WF d c) (hf : depthOf d c + 2 ≤ f) (tail : Str)
     (ht : StopP tail) : parsePipeline f (render d c ++ tail) = .ok tail (treeOf d c) :=
   pipe_fam_ge d f c h hf tail ht
+
+/-! ## the nesting limit (fix be686a0f) in terms of the tree -/
+
+/-- what `bracket_depth` computes on the text of a written pipeline is exactly the bracket height of the
+    tree (`heightOf`: a source list counts 1 + its content, a value list `k=[…]` counts 1, quoted strings
+    count nothing whatever brackets, quotes and backslashes they contain) -/
+theorem guard_is_tree_height (d : Nat) (c : CPipe d) (h : WF d c) : bracketDepth (render d c) = heightOf d c :=
+  bracketDepth_render d c h
+
+/-- **C18 (positive part, depth hypothesis explicit)**: every written pipeline whose brackets nest at most
+    64 deep parses to the pipeline it describes -/
+theorem parse_render_depth (d : Nat) (c : CPipe d) (h : WF d c) (hd : heightOf d c ≤ 64) :
+    parseVpl (render d c) = .ok (treeOf d c) :=
+  parseVpl_render d c h (by rw [bracketDepth_render d c h]; exact hd)
+
+/-- the scanner of the guard tracks quotes and escapes exactly like the lexer: a complete quoted string is
+    neutral for it, for every well-formed body (`"C:\\"`, `"\""`, `"[[["`, `""`, …) -/
+theorem quoted_string_neutral_for_guard (qs : List QChar) (hq : ∀ q ∈ qs, q.WF) :
+    Bal ('"' :: (qstr qs ++ ['"'])) 0 := Bal.quoted qs hq
+
+/-- **beyond the limit: an error behind every lexical prefix and in front of every continuation**: `pre` is
+    any text the scanner comes back from (plain characters and complete quoted strings in any order) -/
+theorem too_deep_tree_rejected (d : Nat) (c : CPipe d) (h : WF d c) (hd : 64 < heightOf d c) (pre post : Str)
+    (hpre : Bal pre 0) : parseVpl (pre ++ (render d c ++ post)) = .err := by
+  apply parseVpl_too_deep
+  rw [bracketDepth_prefix hpre]
+  have := bracketDepth_le_append (render d c) post
+  rw [bracketDepth_render d c h] at this
+  exact Nat.lt_of_lt_of_le hd this
+
+/-- the same for brackets that are never closed: `pre name[name[name[… post` with more than 64 names -/
+theorem deep_opens_rejected (names : List Str) (hn : ∀ n ∈ names, ∀ ch ∈ n, plainChar ch) (hk : 64 < names.length)
+    (pre post : Str) (hpre : Bal pre 0) : parseVpl (pre ++ (opens names ++ post)) = .err := by
+  apply parseVpl_too_deep
+  rw [bracketDepth_prefix hpre]
+  have := bracketDepth_le_append (opens names) post
+  rw [bracketDepth_opens names hn] at this
+  exact Nat.lt_of_lt_of_le hk this
 
 /-- one operation (`parse_node`) against any correct parser for the nested pipelines -/
 theorem parse_node {Pc : Type} (pp : P Pipeline) (ps : Pc → Str) (pt : Pc → Pipeline) (wf : Pc → Prop)
@@ -212,6 +251,7 @@ def exPipe : CPipe 1 := ⟨exNode, []⟩
 
 /-- the worked example passes the nesting guard: one level of brackets -/
 example : bracketDepth (render 1 exPipe) = 1 := by decide
+example : heightOf 1 exPipe = 1 := by decide
 
 example : render 1 exPipe = "a\tk=\"x y\" k=[1 , \"\\\"\"][ b|c,d ]".toList := by decide
 
